@@ -37,14 +37,17 @@ func Check() *common.Check {
 			"non-trivial = a pooled node released earlier in the history is part of a tree handed out later in the same history (the pools really recycled). " +
 			"states = distinct (held values, per-tree node count and recycled-node count) tuples observed after a step",
 		Assume: []string{
-			"sync.Pool on a single P (GOMAXPROCS=1, thread locked) with the collector off returns the objects that were put; two runtime.GC() calls empty every pool",
+			"sync.Pool on a single P (GOMAXPROCS=1) with the collector off returns the objects that were put; two runtime.GC() calls empty every pool",
 			"a retained backing array whose elements are all zero is not distinguishable from a fresh one by content; one with non-zero elements is (reported as stale-backing)",
 			"name -> function tables for Get*/Put* are written by hand; anything in the source they do not cover is reported as unmapped-pool",
 			"cross-goroutine interference is decided by C10, not here",
 			"small-scope hypothesis above history depth 4/5 and above the six statements of the alphabet",
 		},
 		Enumerate: func(e *common.Enum) {
-			runtime.LockOSThread()
+			// One P and no automatic collection: a sync.Pool then hands back exactly what was put (the
+			// per-P private slot and LIFO chain), which the cleanliness cases assert by pointer identity
+			// rather than assume.  (The goroutine is not locked to its thread: with a single P that adds
+			// nothing, and it makes every explicit collection hand the P back and forth between threads.)
 			runtime.GOMAXPROCS(1)
 			debug.SetGCPercent(-1)
 			reg, err := loadRegistry()
@@ -67,7 +70,7 @@ func Check() *common.Check {
 			if e.Thorough() {
 				depth = 5
 			}
-			enumerateHistories(e, pooled, depth)
+			enumerateHistories(e, targets, pooled, depth)
 		},
 	}
 }
